@@ -1,10 +1,171 @@
-"""Sensitivity audit (thorough tier) - placeholder until the variant corpus is built."""
+"""Sensitivity audit: run the checks on the variants of selftest/variants.py and on the seeded changes (seeded/*/patch.diff).
+
+    ./check --selftest [Cxx]      run the whole corpus (or the variants relevant to one property), print a table, exit 0 iff every
+                                  break-variant is reported by all the properties it lists and every benign variant is silent
+    thorough tier of ./check Cxx  the same restricted to Cxx; the kill ratio is written into the evidence; a failed expectation makes
+                                  the thorough run exit 2 (the checker, not the library, is then at fault)
+
+Every variant is applied to a scratch copy of /repo/flowpaths under $TMPDIR, which is removed as soon as its checks finished.
+"""
+from __future__ import annotations
+
+import json
+import os
+import shutil
+import subprocess
+import sys
+import tempfile
+from concurrent.futures import ThreadPoolExecutor
+
+HERE = os.path.dirname(os.path.dirname(os.path.abspath(__file__)))
+ALL = [f"C{i:02d}" for i in range(1, 21)]
+
+
+def repo_root():
+    return os.environ.get("VERIF_REPO", "/repo")
+
+
+def run_checks(root: str, pids):
+    out = {}
+    for pid in pids:
+        env = dict(os.environ, VERIF_REPO=root, VERIF_EVIDENCE_DIR=os.path.join(root, "_evidence"), VERIF_TIER="quick")
+        r = subprocess.run([sys.executable, os.path.join(HERE, "check.py"), pid, "--tier", "quick"], capture_output=True, text=True, env=env)
+        first = [l.strip() for l in r.stdout.splitlines() if l.startswith("  ") and "[" in l][:1]
+        err = [l.strip() for l in r.stdout.splitlines() if l.startswith("ANALYSIS-ERROR")][:1]
+        out[pid] = (r.returncode, (first or err or [""])[0][:260])
+    return out
+
+
+def apply_variant(root: str, edits) -> str:
+    for e in edits:
+        if callable(e):
+            e(root)
+            continue
+        rel, old, new, cnt = e
+        p = os.path.join(root, rel)
+        if not os.path.exists(p):
+            return f"stale: {rel} missing"
+        s = open(p, encoding="utf-8").read()
+        if s.count(old) != cnt:
+            return f"stale: expected {cnt} occurrence(s) of the anchor text in {rel}, found {s.count(old)}"
+        open(p, "w", encoding="utf-8").write(s.replace(old, new))
+    # must still compile
+    r = subprocess.run([sys.executable, "-m", "compileall", "-q", os.path.join(root, "flowpaths")], capture_output=True, text=True)
+    if r.returncode != 0:
+        return "variant does not compile: " + (r.stdout + r.stderr)[-200:]
+    return ""
+
+
+def one(job):
+    name, expected, edits, pids, patch = job
+    d = tempfile.mkdtemp(prefix="verif_audit_")
+    try:
+        shutil.copytree(os.path.join(repo_root(), "flowpaths"), os.path.join(d, "flowpaths"), ignore=shutil.ignore_patterns("__pycache__"))
+        if patch:
+            r = subprocess.run(f"cd {d} && patch -p1 -s < {patch}", shell=True, capture_output=True, text=True)
+            if r.returncode != 0:
+                return name, expected, "stale: patch does not apply", {}
+            msg = ""
+        else:
+            msg = apply_variant(d, edits)
+        if msg:
+            return name, expected, msg, {}
+        return name, expected, "", run_checks(d, pids)
+    finally:
+        shutil.rmtree(d, ignore_errors=True)
+
+
+def jobs_for(pid=None):
+    from selftest.variants import V, B
+    jobs = []
+    for name, expected, edits in V:
+        if expected == B:
+            pids = [pid] if pid else ALL
+        else:
+            if pid and pid not in expected:
+                continue
+            pids = [pid] if pid else sorted(expected)
+        jobs.append((name, expected, edits, pids, None))
+    sd = os.path.join(HERE, "seeded")
+    if os.path.isdir(sd):
+        for s in sorted(os.listdir(sd)):
+            mp = os.path.join(sd, s, "meta.json")
+            if not os.path.exists(mp):
+                continue
+            meta = json.load(open(mp))
+            exp = set(meta.get("detected_by") or [meta["property"]])
+            if meta["property"] not in exp and not meta.get("not_detected_by_own_property"):
+                exp.add(meta["property"])
+            if meta.get("not_detected_by_own_property"):
+                exp.discard(meta["property"])
+            if pid and pid not in exp:
+                continue
+            jobs.append((f"seeded/{s}", exp, None, [pid] if pid else sorted(exp), os.path.join(sd, s, "patch.diff")))
+    return jobs
+
+
+def evaluate(results):
+    rows = []
+    ok_all = True
+    for name, expected, msg, res in results:
+        if msg:
+            rows.append((name, "SKIP", msg))
+            continue
+        if expected == "benign":
+            bad = {p: r for p, r in res.items() if r[0] != 0}
+            if bad:
+                ok_all = False
+                rows.append((name, "FALSE-ALARM", "; ".join(f"{p} exit {r[0]}: {r[1]}" for p, r in bad.items())))
+            else:
+                rows.append((name, "silent", f"{len(res)} check(s) exit 0"))
+        else:
+            missed = [p for p in res if res[p][0] != 1]
+            if missed:
+                ok_all = False
+                rows.append((name, "MISSED", f"not reported by {missed} (exit {[res[p][0] for p in missed]})"))
+            else:
+                rows.append((name, "killed", "; ".join(f"{p}: {res[p][1][:110]}" for p in sorted(res))))
+    return ok_all, rows
+
+
+def run(pid=None, workers=None):
+    jobs = jobs_for(pid)
+    with ThreadPoolExecutor(max_workers=workers or min(16, os.cpu_count() or 4)) as ex:
+        results = list(ex.map(one, jobs))
+    return evaluate(results)
 
 
 def run_for_property(pid, rep):
-    rep.note("thorough tier: sensitivity audit not built yet; thorough == quick for now")
+    ok, rows = run(pid)
+    killed = sum(1 for r in rows if r[1] == "killed")
+    silent = sum(1 for r in rows if r[1] == "silent")
+    missed = [r for r in rows if r[1] == "MISSED"]
+    fa = [r for r in rows if r[1] == "FALSE-ALARM"]
+    skipped = [r for r in rows if r[1] == "SKIP"]
+    rep.extra["sensitivity_audit"] = {
+        "break_variants_run": killed + len(missed), "killed": killed, "missed": [r[0] for r in missed],
+        "benign_variants_run": silent + len(fa), "false_alarms": [f"{r[0]}: {r[2][:200]}" for r in fa],
+        "skipped_stale": [f"{r[0]}: {r[2][:80]}" for r in skipped],
+        "samples": [f"{r[0]} -> {r[1]}: {r[2][:160]}" for r in rows[:12]],
+    }
+    print(f"{pid} sensitivity audit: {killed}/{killed + len(missed)} break-variants killed, {silent}/{silent + len(fa)} benign variants silent, "
+          f"{len(skipped)} stale")
+    for r in missed + fa:
+        print(f"ANALYSIS-ERROR property={pid} self-test expectation failed: {r[0]} {r[1]} {r[2][:300]}")
+    if missed or fa:
+        rep.audit_failed = True
+    if killed == 0 and not skipped:
+        print(f"ANALYSIS-ERROR property={pid}: no break-variant of the corpus is killed by this property's rules (vacuous)")
+        rep.audit_failed = True
 
 
 def main(pid=None):
-    print("selftest corpus not built yet")
-    return 0
+    ok, rows = run(pid)
+    w = max(len(r[0]) for r in rows) if rows else 10
+    for r in rows:
+        print(f"{r[0]:<{w}}  {r[1]:<11}  {r[2][:200]}")
+    n_k = sum(1 for r in rows if r[1] == "killed")
+    n_s = sum(1 for r in rows if r[1] == "silent")
+    n_bad = sum(1 for r in rows if r[1] in ("MISSED", "FALSE-ALARM"))
+    print(f"self-test: {n_k} killed, {n_s} silent, {n_bad} failed expectation(s), {sum(1 for r in rows if r[1] == 'SKIP')} stale")
+    return 0 if ok else 1
